@@ -324,7 +324,7 @@ func runShard(work, prop, tier string, seed int64, leg string, shard, nshards in
 }
 
 var (
-	reRaceFrame = regexp.MustCompile(`(?m)^\s+(github\.com/zmap/zcrypto/[^\s(]+)\(`)
+	reRaceFrame = regexp.MustCompile(`(?m)^\s+(github\.com/zmap/zcrypto/\S+)\(\)\s*$`)
 	reFatal     = regexp.MustCompile(`(?m)^(fatal error: .*|panic: .*|runtime: .*out of memory.*)$`)
 )
 
